@@ -188,13 +188,14 @@ class nonumber(Command):
         self.ownerDocument.context.counters['equation'].addtocounter(-1)
 
     def digest(self, tokens):
-        try:
-            row = self.parentNode
-            while not isinstance(row, Array.ArrayRow):
-                row = row.parentNode
-            row.ref = None
-        except AttributeError as e:
-            print('problem encountered %s' % e)
+        # The number is taken from the row of an array-like environment, or
+        # from the equation environment itself
+        node = self.parentNode
+        while node is not None and not isinstance(node, Array.ArrayRow) \
+              and getattr(node, 'counter', None) != 'equation':
+            node = node.parentNode
+        if node is not None:
+            node.ref = None
 
 class notag(nonumber):
     pass
